@@ -44,6 +44,14 @@ class Report:
         r["instances"] += 1
         self.violations.append(dict(rule=rid, key=key, msg=msg, where=where))
 
+    def undecided(self, rid, key, why):
+        """the construct was found but has a form the rule cannot fold: recorded and printed, not a violation (a violation needs positive evidence)"""
+        r = self.rules[rid]
+        r["instances"] += 1
+        r["undecided"] = r.get("undecided", 0) + 1
+        self.notes.append("UNDECIDED %s %s: %s" % (rid, key, why))
+        print("UNDECIDED property=%s rule=%s instance=%s: %s" % (self.pid, rid, key, why))
+
     def floor(self, rid, what, count, floor):
         """fail closed when a rule matched fewer sites than were confirmed by hand on the pinned tree"""
         if count < floor:
